@@ -570,6 +570,8 @@ type Contract struct {
 	Gotos      map[string][]*Clause // "label#k" -> conditions under which the k-th goto to label may be taken
 	Afters     map[string][]*Clause // "pkg.F#k" -> assertions proved (then assumed) right after the block-level statement containing the k-th call of pkg.F
 	Names      []string             // `names a b | r | x y`: the declared variables (receiver+params | named results | locals, declaration order) when the contract was written
+	NamesType  []string             // ... their types (spaces removed), "" if not recorded
+	NamesTag   []string             // ... their loop role (see FuncInfo.DeclTag), "" if none
 	NamesIn    int                  // ... how many of them are receiver+parameters
 	NamesOut   int                  // ... and named results
 	Quiet      []string             // lemma functions: callees whose postconditions are NOT assumed at their call sites (frames still apply); dropping hypotheses is sound and keeps product-program VCs small
@@ -1036,7 +1038,7 @@ func (cs *ContractSet) ReadFile(path, pkgName string, external bool) error {
 				cur.Hide = append(cur.Hide, strings.Fields(strings.ReplaceAll(rest, ",", " "))...)
 			case "names":
 				groups := strings.Split(rest, "|")
-				cur.Names = nil
+				cur.Names, cur.NamesType, cur.NamesTag = nil, nil, nil
 				for gi, g := range groups {
 					fs := strings.Fields(g)
 					if gi == 0 {
@@ -1045,7 +1047,19 @@ func (cs *ContractSet) ReadFile(path, pkgName string, external bool) error {
 					if gi == 1 {
 						cur.NamesOut = len(fs)
 					}
-					cur.Names = append(cur.Names, fs...)
+					for _, f := range fs {
+						// name[:type][@looprole]
+						tagS, typS := "", ""
+						if i := strings.LastIndex(f, "@"); i >= 0 {
+							f, tagS = f[:i], f[i+1:]
+						}
+						if i := strings.Index(f, ":"); i >= 0 {
+							f, typS = f[:i], f[i+1:]
+						}
+						cur.Names = append(cur.Names, f)
+						cur.NamesType = append(cur.NamesType, typS)
+						cur.NamesTag = append(cur.NamesTag, tagS)
+					}
 				}
 			case "quiet":
 				cur.Quiet = append(cur.Quiet, strings.Fields(strings.ReplaceAll(rest, ",", " "))...)
